@@ -14,7 +14,9 @@ def main(tier, t0):
     structs = ("opt-literal", "ref-vs-iri", "bnode-instances", "own-links", "incoming-fresh", "multi-typed")
     for opt in ({"detect_minimal_iri": True}, {"examples_mode": "all"}, {"examples_mode": "cons", "detect_minimal_iri": True}, {"examples_mode": "shape"}):
         tasks += stage_check.tasks_for("C17", tier, scenario="pair:e2e:" + json.dumps(opt, sort_keys=True), judge="C17e", sizes=lambda t, k: [3] if t == "quick" else [2, 3, 4],
-                                       structure_filter=lambda st: st["name"] in structs, cfg={"fixed_flags": {"remove_empty_shapes": True, "disable_exact_cardinality": False}})
+                                       structure_filter=lambda st: st["name"] in structs, cfg={"fixed_flags": {"remove_empty_shapes": True, "disable_exact_cardinality": False},
+                                            # the SHACL rendering (sh:pattern) of both runs is produced and judged too for the stem-only pair
+                                            "want_shacl": opt == {"detect_minimal_iri": True}})
     results = run_pool(tasks, budget_s=600 if tier == "quick" else 3000)
     m = strfn_check.meta("C17")
     sm = step_check.meta("C17")
